@@ -3,6 +3,7 @@
   never run out of fuel.  (C17 `keyfile_roundtrip`, C13 totality of the key-file readers.)
 -/
 import Otr.KeyFile
+import Proofs.Msg
 namespace Otr
 open Otr
 
@@ -323,5 +324,743 @@ theorem readDSAPrivateKey_export (k : DsaPriv) (rest : Bytes) (l : Option UInt8)
   rw [show (0x29 : UInt8) = chRParen from rfl, expect_hit chRParen _ _ (by decide)]
   cases k
   simp [strBytes]
+
+theorem readDSAPrivateKey_ws (c : UInt8) (rest : Bytes) (l : Option UInt8) (h : isWhitespace c = true) :
+    readDSAPrivateKey ⟨c :: rest, l⟩ = readDSAPrivateKey ⟨rest, some c⟩ := by
+  simp only [readDSAPrivateKey, expect_ws _ _ _ _ h]
+
+theorem exportPrivateKey_eq (k : DsaPriv) (rest : Bytes) :
+    exportPrivateKey k ++ rest =
+      0x20 :: 0x20 :: 0x20 :: 0x20 :: 0x28 ::
+        0x70 :: 0x72 :: 0x69 :: 0x76 :: 0x61 :: 0x74 :: 0x65 :: 0x2d :: 0x6b :: 0x65 :: 0x79 :: 0x0a ::
+        (exportDSAPrivateKey k ++ (0x20 :: 0x20 :: 0x20 :: 0x20 :: 0x29 :: 0x0a :: rest)) := by
+  simp [exportPrivateKey, strBytes]
+
+/-- `(private-key (dsa …))` -/
+theorem readPrivateKey_export (k : DsaPriv) (rest : Bytes) (l : Option UInt8) :
+    readPrivateKey ⟨exportPrivateKey k ++ rest, l⟩ = .done ((k, true), ⟨0x0a :: rest, some chRParen⟩) := by
+  rw [exportPrivateKey_eq]
+  have hsp : isWhitespace 0x20 = true := by decide
+  simp only [readPrivateKey]
+  rw [expect_ws _ _ _ _ hsp, expect_ws _ _ _ _ hsp, expect_ws _ _ _ _ hsp, expect_ws _ _ _ _ hsp]
+  rw [show (0x28 : UInt8) = chLParen from rfl, expect_hit chLParen _ _ (by decide)]
+  have hsym := fun tl => readValue_sym 0x70 [0x72, 0x69, 0x76, 0x61, 0x74, 0x65, 0x2d, 0x6b, 0x65, 0x79] 0x0a tl
+    (some chLParen) (by decide) (by decide) (by decide)
+  simp only [List.cons_append, List.nil_append] at hsym
+  simp only [readSymbolAndExpect_of _ _ _ _ (hsym _), Run.bind_done]
+  rw [readDSAPrivateKey_ws _ _ _ (by decide), readDSAPrivateKey_export]
+  simp only [Run.bind_done]
+  rw [expect_ws _ _ _ _ (by decide), expect_ws _ _ _ _ hsp, expect_ws _ _ _ _ hsp, expect_ws _ _ _ _ hsp,
+    expect_ws _ _ _ _ hsp, show (0x29 : UInt8) = chRParen from rfl, expect_hit chRParen _ _ (by decide)]
+  simp [strBytes]
+
+theorem readPrivateKey_ws (c : UInt8) (rest : Bytes) (l : Option UInt8) (h : isWhitespace c = true) :
+    readPrivateKey ⟨c :: rest, l⟩ = readPrivateKey ⟨rest, some c⟩ := by
+  simp only [readPrivateKey, expect_ws _ _ _ _ h]
+
+theorem exportName_eq (n : Bytes) (rest : Bytes) :
+    exportName n ++ rest =
+      0x20 :: 0x20 :: 0x20 :: 0x20 :: 0x28 :: 0x6e :: 0x61 :: 0x6d :: 0x65 :: 0x20 :: 0x22 ::
+        (n ++ 0x22 :: 0x29 :: 0x0a :: rest) := by
+  simp [exportName, strBytes]
+
+/-- `(name "…")` for a name without a double quote -/
+theorem readAccountName_export (n : Bytes) (rest : Bytes) (l : Option UInt8)
+    (hn : ∀ x ∈ n, (x == chQuote) = false) :
+    readAccountName ⟨exportName n ++ rest, l⟩ = .done ((n, true), ⟨0x0a :: rest, some chRParen⟩) := by
+  rw [exportName_eq]
+  have hsp : isWhitespace 0x20 = true := by decide
+  simp only [readAccountName]
+  rw [expect_ws _ _ _ _ hsp, expect_ws _ _ _ _ hsp, expect_ws _ _ _ _ hsp, expect_ws _ _ _ _ hsp]
+  rw [show (0x28 : UInt8) = chLParen from rfl, expect_hit chLParen _ _ (by decide)]
+  have hsym := fun tl => readValue_sym 0x6e [0x61, 0x6d, 0x65] 0x20 tl
+    (some chLParen) (by decide) (by decide) (by decide)
+  simp only [List.cons_append, List.nil_append] at hsym
+  simp only [readSymbolAndExpect_of _ _ _ _ (hsym _), Run.bind_done, readPotentialStringOrSymbol]
+  rw [readValue_ws _ _ _ hsp, show (0x22 : UInt8) = chQuote from rfl, readValue_str n _ _ hn]
+  simp only [Run.bind_done, Run.pure_eq]
+  rw [show (0x29 : UInt8) = chRParen from rfl, expect_hit chRParen _ _ (by decide)]
+  simp [strBytes]
+
+theorem readAccountName_ws (c : UInt8) (rest : Bytes) (l : Option UInt8) (h : isWhitespace c = true) :
+    readAccountName ⟨c :: rest, l⟩ = readAccountName ⟨rest, some c⟩ := by
+  simp only [readAccountName, expect_ws _ _ _ _ h]
+
+/-- a protocol name the reader takes for a symbol: non-empty, starts with a symbol-start byte
+    (no whitespace, parenthesis, double quote or hash mark), goes on without whitespace or parentheses -/
+def validProtocol : Bytes → Bool
+  | [] => false
+  | c :: s => isSymbolStart c && s.all fun x => !isNotSymbolCharacter x
+
+theorem exportProtocol_eq (n : Bytes) (rest : Bytes) :
+    exportProtocol n ++ rest =
+      0x20 :: 0x20 :: 0x20 :: 0x20 :: 0x28 :: 0x70 :: 0x72 :: 0x6f :: 0x74 :: 0x6f :: 0x63 :: 0x6f :: 0x6c :: 0x20 ::
+        (n ++ 0x29 :: 0x0a :: rest) := by
+  simp [exportProtocol, strBytes]
+
+/-- `(protocol …)` -/
+theorem readAccountProtocol_export (n : Bytes) (rest : Bytes) (l : Option UInt8) (hn : validProtocol n = true) :
+    readAccountProtocol ⟨exportProtocol n ++ rest, l⟩ = .done ((n, true), ⟨0x0a :: rest, some chRParen⟩) := by
+  rw [exportProtocol_eq]
+  have hsp : isWhitespace 0x20 = true := by decide
+  simp only [readAccountProtocol]
+  rw [expect_ws _ _ _ _ hsp, expect_ws _ _ _ _ hsp, expect_ws _ _ _ _ hsp, expect_ws _ _ _ _ hsp]
+  rw [show (0x28 : UInt8) = chLParen from rfl, expect_hit chLParen _ _ (by decide)]
+  have hsym := fun tl => readValue_sym 0x70 [0x72, 0x6f, 0x74, 0x6f, 0x63, 0x6f, 0x6c] 0x20 tl
+    (some chLParen) (by decide) (by decide) (by decide)
+  simp only [List.cons_append, List.nil_append] at hsym
+  simp only [readSymbolAndExpect_of _ _ _ _ (hsym _), Run.bind_done, readPotentialSymbol]
+  rw [readValue_ws _ _ _ hsp]
+  cases n with
+  | nil => simp [validProtocol] at hn
+  | cons c0 s =>
+    simp only [validProtocol, Bool.and_eq_true, List.all_eq_true, Bool.not_eq_true'] at hn
+    simp only [List.cons_append]
+    rw [readValue_sym c0 s 0x29 _ _ hn.1 hn.2 (by decide)]
+    simp only [Run.bind_done, Run.pure_eq]
+    rw [show (0x29 : UInt8) = chRParen from rfl, expect_hit chRParen _ _ (by decide)]
+    simp [strBytes]
+
+theorem readAccountProtocol_ws (c : UInt8) (rest : Bytes) (l : Option UInt8) (h : isWhitespace c = true) :
+    readAccountProtocol ⟨c :: rest, l⟩ = readAccountProtocol ⟨rest, some c⟩ := by
+  simp only [readAccountProtocol, expect_ws _ _ _ _ h]
+
+/-- the accounts the round trip holds for -/
+def Account.wellFormed (a : Account) : Bool :=
+  (a.name.all fun x => !(x == chQuote)) && validProtocol a.protocol
+
+theorem exportAccount_eq (a : Account) (rest : Bytes) :
+    exportAccount a ++ rest =
+      0x20 :: 0x20 :: 0x28 :: 0x61 :: 0x63 :: 0x63 :: 0x6f :: 0x75 :: 0x6e :: 0x74 :: 0x0a ::
+        (exportName a.name ++ (exportProtocol a.protocol ++ (exportPrivateKey a.key ++
+          (0x20 :: 0x20 :: 0x29 :: 0x0a :: rest)))) := by
+  simp [exportAccount, strBytes]
+
+/-- one `(account …)` -/
+theorem readAccount_export (a : Account) (rest : Bytes) (l : Option UInt8) (ha : a.wellFormed = true) :
+    readAccount ⟨0x0a :: (exportAccount a ++ rest), l⟩ =
+      .done ((some a, true, false), ⟨0x0a :: rest, some chRParen⟩) := by
+  rw [exportAccount_eq]
+  have hsp : isWhitespace 0x20 = true := by decide
+  simp only [Account.wellFormed, Bool.and_eq_true, List.all_eq_true, Bool.not_eq_true'] at ha
+  simp only [readAccount]
+  rw [expect_ws _ _ _ _ (by decide), expect_ws _ _ _ _ hsp, expect_ws _ _ _ _ hsp]
+  rw [show (0x28 : UInt8) = chLParen from rfl, expect_hit chLParen _ _ (by decide)]
+  have hsym := fun tl => readValue_sym 0x61 [0x63, 0x63, 0x6f, 0x75, 0x6e, 0x74] 0x0a tl
+    (some chLParen) (by decide) (by decide) (by decide)
+  simp only [List.cons_append, List.nil_append] at hsym
+  simp only [readSymbolAndExpect_of _ _ _ _ (hsym _), Run.bind_done]
+  rw [readAccountName_ws _ _ _ (by decide), readAccountName_export _ _ _ ha.1]
+  simp only [Run.bind_done]
+  rw [readAccountProtocol_ws _ _ _ (by decide), readAccountProtocol_export _ _ _ ha.2]
+  simp only [Run.bind_done]
+  rw [readPrivateKey_ws _ _ _ (by decide), readPrivateKey_export]
+  simp only [Run.bind_done]
+  rw [expect_ws _ _ _ _ (by decide), expect_ws _ _ _ _ hsp, expect_ws _ _ _ _ hsp,
+    show (0x29 : UInt8) = chRParen from rfl, expect_hit chRParen _ _ (by decide)]
+  cases a
+  simp [strBytes]
+
+theorem exportAccounts_length (as : List Account) : as.length ≤ (as.map exportAccount).flatten.length := by
+  induction as with
+  | nil => simp
+  | cons a as ih =>
+    have : 0 < (exportAccount a).length := by simp [exportAccount, strBytes]
+    simp only [List.map_cons, List.flatten_cons, List.length_append, List.length_cons]
+    omega
+
+/-- the loop of readAccounts over the accounts and the closing parenthesis -/
+theorem readAccountsLoop_export (as : List Account) (has : ∀ a ∈ as, a.wellFormed = true) :
+    ∀ (fuel : Nat) (acc : List Account) (ok : Bool) (l : Option UInt8), as.length < fuel →
+      readAccountsLoop fuel acc ok ⟨0x0a :: ((as.map exportAccount).flatten ++ [0x29, 0x0a]), l⟩ =
+        .done ((acc ++ as, ok), ⟨[0x29, 0x0a], none⟩) := by
+  induction as with
+  | nil =>
+    intro fuel acc ok l hf
+    obtain ⟨f, rfl⟩ : ∃ f, fuel = f + 1 := ⟨fuel - 1, by simp at hf; omega⟩
+    simp only [List.map_nil, List.flatten_nil, List.nil_append, readAccountsLoop, readAccount]
+    rw [expect_ws _ _ _ _ (by decide), expect_miss 0x29 chLParen _ _ (by decide) (by decide)]
+    simp
+  | cons a as ih =>
+    intro fuel acc ok l hf
+    obtain ⟨f, rfl⟩ : ∃ f, fuel = f + 1 := ⟨fuel - 1, by simp at hf; omega⟩
+    simp only [List.map_cons, List.flatten_cons, List.append_assoc, readAccountsLoop]
+    rw [readAccount_export a _ _ (has a (by simp))]
+    simp only [Run.bind_done, Bool.and_true, Bool.false_eq_true, if_false]
+    rw [ih (fun b hb => has b (by simp [hb])) f (acc ++ [a]) ok _ (by simp at hf; omega)]
+    simp
+
+theorem exportKeys_eq (as : List Account) :
+    exportKeys as =
+      0x28 :: 0x70 :: 0x72 :: 0x69 :: 0x76 :: 0x6b :: 0x65 :: 0x79 :: 0x73 :: 0x0a ::
+        ((as.map exportAccount).flatten ++ [0x29, 0x0a]) := by
+  simp [exportKeys, strBytes]
+
+/-- **C17, key files.**  Reading back what `ExportKeysToFile` wrote gives the same accounts:
+    names are arbitrary bytes except the double quote (the empty name, whitespace, parentheses,
+    newlines, hash marks are all fine inside the quotes), protocol names are symbols, and the five
+    key parameters are arbitrary: any integer (zero, negative, any number of hex digits) and even
+    the nil pointer, which `%X` prints as `<nil>` and the reader turns back into nil. -/
+theorem keyfile_roundtrip (as : List Account) (has : ∀ a ∈ as, a.wellFormed = true) :
+    importKeys (exportKeys as) = .done (some as) := by
+  rw [exportKeys_eq]
+  simp only [importKeys, readAccounts]
+  rw [show (0x28 : UInt8) = chLParen from rfl, expect_hit chLParen _ _ (by decide)]
+  have hsym := fun tl => readValue_sym 0x70 [0x72, 0x69, 0x76, 0x6b, 0x65, 0x79, 0x73] 0x0a tl
+    (some chLParen) (by decide) (by decide) (by decide)
+  simp only [List.cons_append, List.nil_append] at hsym
+  simp only [readSymbolAndExpect_of _ _ _ _ (hsym _), Run.bind_done]
+  rw [readAccountsLoop_export as has _ [] true none
+    (by have := exportAccounts_length as
+        simp only [List.length_cons, List.length_append]; omega)]
+  simp only [Run.bind_done]
+  rw [show (0x29 : UInt8) = chRParen from rfl, expect_hit chRParen _ _ (by decide)]
+  simp [strBytes]
+
+/-! ### totality: the fuelled loops never run out of fuel (C13)
+
+Every reader leaves at most as many bytes as it found, and every round of a loop that goes on
+has consumed at least one byte. -/
+
+theorem readWhitespaceAux_spec (inp : Bytes) (l : Option UInt8) :
+    (readWhitespaceAux inp l).inp.length ≤ inp.length ∧
+    ((readWhitespaceAux inp l).inp = [] ∨
+      ∃ c rest, readWhitespaceAux inp l = ⟨c :: rest, none⟩ ∧ isWhitespace c = false) := by
+  induction inp generalizing l with
+  | nil => simp [readWhitespaceAux]
+  | cons c rest ih =>
+    simp only [readWhitespaceAux]
+    by_cases h : isWhitespace c = true
+    · simp only [h, if_true]
+      have := ih (some c)
+      exact ⟨by simp only [List.length_cons]; omega, this.2⟩
+    · simp only [h]
+      exact ⟨by simp, Or.inr ⟨c, rest, by simp, by simpa using h⟩⟩
+
+theorem readWhitespace_len (r : Rd) : (readWhitespace r).inp.length ≤ r.inp.length :=
+  (readWhitespaceAux_spec r.inp r.last).1
+
+theorem readWhitespace_head (r : Rd) :
+    (readWhitespace r).inp = [] ∨ ∃ c rest, readWhitespace r = ⟨c :: rest, none⟩ ∧ isWhitespace c = false :=
+  (readWhitespaceAux_spec r.inp r.last).2
+
+theorem readWhitespace_idem (c : UInt8) (rest : Bytes) (l : Option UInt8) (h : isWhitespace c = false) :
+    readWhitespace ⟨c :: rest, l⟩ = ⟨c :: rest, none⟩ := by
+  simp [readWhitespace, readWhitespaceAux, h]
+
+theorem readDataUntilAux_len (stop : UInt8 → Bool) (inp : Bytes) (l : Option UInt8) :
+    (readDataUntilAux stop inp l).2.inp.length ≤ inp.length := by
+  induction inp generalizing l with
+  | nil => simp [readDataUntilAux]
+  | cons c rest ih =>
+    simp only [readDataUntilAux]
+    cases h : stop c with
+    | true => simp
+    | false =>
+      have := ih (some c)
+      simp only [Bool.false_eq_true, if_false, List.length_cons]; omega
+
+theorem readDataUntilAux_lt (stop : UInt8 → Bool) (c : UInt8) (rest : Bytes) (l : Option UInt8)
+    (h : stop c = false) :
+    (readDataUntilAux stop (c :: rest) l).2.inp.length < (c :: rest).length := by
+  simp only [readDataUntilAux, h]
+  have := readDataUntilAux_len stop rest (some c)
+  simp only [Bool.false_eq_true, if_false, List.length_cons]; omega
+
+theorem expect_len (r : Rd) (c : UInt8) : (expect r c).2.inp.length ≤ r.inp.length := by
+  have hw := readWhitespace_len r
+  simp only [expect, Rd.readByte]
+  cases hi : (readWhitespace r).inp with
+  | nil => exact hw
+  | cons b rest =>
+    rw [hi] at hw
+    by_cases hb : b = c
+    · simp only [hb, if_true]; simp only [List.length_cons] at hw; omega
+    · simp only [hb, if_false, Rd.unreadByte]; exact hw
+
+theorem expect_lt (r : Rd) (c : UInt8) (h : (expect r c).1 = true) :
+    (expect r c).2.inp.length < r.inp.length := by
+  have hw := readWhitespace_len r
+  revert h
+  simp only [expect, Rd.readByte]
+  cases hi : (readWhitespace r).inp with
+  | nil => simp
+  | cons b rest =>
+    rw [hi] at hw
+    by_cases hb : b = c
+    · simp only [hb, if_true]; intro _; simp only [List.length_cons] at hw; omega
+    · simp [hb]
+
+/-- a reader that always comes back and never leaves more than it found -/
+def Tot {α : Type} (f : Rd → Run (α × Rd)) : Prop :=
+  ∀ r, ∃ a r', f r = .done (a, r') ∧ r'.inp.length ≤ r.inp.length
+
+theorem readString_len (r : Rd) : (readString r).2.inp.length ≤ r.inp.length := by
+  have h0 := readWhitespace_len r
+  have h1 := expect_len (readWhitespace r) chQuote
+  simp only [readString]
+  cases he : expect (readWhitespace r) chQuote with
+  | mk b r1 =>
+    rw [he] at h1
+    simp only at h1
+    cases b with
+    | false => simp only; omega
+    | true =>
+      simp only [readDataUntil]
+      have h2 := readDataUntilAux_len (· == chQuote) r1.inp r1.last
+      cases hd : readDataUntilAux (· == chQuote) r1.inp r1.last with
+      | mk d r2 =>
+        rw [hd] at h2
+        have h3 := expect_len r2 chQuote
+        simp only at h2 ⊢
+        cases he2 : expect r2 chQuote with
+        | mk b2 r3 =>
+          rw [he2] at h3
+          simp only at h3
+          cases b2 <;> simp only <;> omega
+
+theorem readBigNum_len (r : Rd) : (readBigNum r).2.inp.length ≤ r.inp.length := by
+  have h0 := readWhitespace_len r
+  have h1 := expect_len (readWhitespace r) chHash
+  simp only [readBigNum]
+  cases he : expect (readWhitespace r) chHash with
+  | mk b r1 =>
+    rw [he] at h1
+    simp only at h1
+    cases b with
+    | false => simp only; omega
+    | true =>
+      simp only [readDataUntil]
+      have h2 := readDataUntilAux_len (· == chHash) r1.inp r1.last
+      cases hd : readDataUntilAux (· == chHash) r1.inp r1.last with
+      | mk d r2 =>
+        rw [hd] at h2
+        have h3 := expect_len r2 chHash
+        simp only at h2 ⊢
+        cases he2 : expect r2 chHash with
+        | mk b2 r3 =>
+          rw [he2] at h3
+          simp only at h3
+          cases b2 <;> simp only <;> omega
+
+/-- ReadString / ReadBigNum on a reader whose next byte is the opening mark consume it -/
+theorem readString_lt (rest : Bytes) (l : Option UInt8) :
+    (readString ⟨chQuote :: rest, l⟩).2.inp.length < (chQuote :: rest).length := by
+  have hw : isWhitespace chQuote = false := by decide
+  simp only [readString, readWhitespace_idem _ _ _ hw, expect_hit _ _ _ hw, readDataUntil]
+  have h2 := readDataUntilAux_len (· == chQuote) rest (some chQuote)
+  cases hd : readDataUntilAux (· == chQuote) rest (some chQuote) with
+  | mk d r2 =>
+    rw [hd] at h2
+    have h3 := expect_len r2 chQuote
+    simp only at h2 ⊢
+    cases he2 : expect r2 chQuote with
+    | mk b2 r3 =>
+      rw [he2] at h3
+      simp only at h3
+      cases b2 <;> simp only [List.length_cons] <;> omega
+
+theorem readBigNum_lt (rest : Bytes) (l : Option UInt8) :
+    (readBigNum ⟨chHash :: rest, l⟩).2.inp.length < (chHash :: rest).length := by
+  have hw : isWhitespace chHash = false := by decide
+  simp only [readBigNum, readWhitespace_idem _ _ _ hw, expect_hit _ _ _ hw, readDataUntil]
+  have h2 := readDataUntilAux_len (· == chHash) rest (some chHash)
+  cases hd : readDataUntilAux (· == chHash) rest (some chHash) with
+  | mk d r2 =>
+    rw [hd] at h2
+    have h3 := expect_len r2 chHash
+    simp only at h2 ⊢
+    cases he2 : expect r2 chHash with
+    | mk b2 r3 =>
+      rw [he2] at h3
+      simp only at h3
+      cases b2 <;> simp only [List.length_cons] <;> omega
+
+theorem readSymbol_lt (c : UInt8) (rest : Bytes) (l : Option UInt8) (h : isNotSymbolCharacter c = false) :
+    (readSymbol ⟨c :: rest, l⟩).2.inp.length < (c :: rest).length := by
+  have hw : isWhitespace c = false := by
+    simp only [isNotSymbolCharacter, Bool.or_eq_false_iff] at h; exact h.1.1
+  simp only [readSymbol, readWhitespace_idem _ _ _ hw, readDataUntil]
+  exact readDataUntilAux_lt isNotSymbolCharacter c rest none h
+
+/-- what `readValueWith` needs of the list reader: called on a "(" it comes back, having consumed it -/
+def GoodList (L : Rd → Run (Sexp × Rd)) : Prop :=
+  ∀ rest l, ∃ v r', L ⟨chLParen :: rest, l⟩ = .done (v, r') ∧ r'.inp.length ≤ rest.length
+
+/-- a value reader: comes back, leaves no more than it found, and less when it read a value -/
+def GoodValue (V : Rd → Run ((Sexp × Bool) × Rd)) : Prop :=
+  ∀ r, ∃ v e r', V r = .done ((v, e), r') ∧ r'.inp.length ≤ r.inp.length ∧
+    (e = false → r'.inp.length < r.inp.length)
+
+theorem goodList_readListWith (item : Option (Rd → Run (Sexp × Rd))) (hitem : ∀ it, item = some it → Tot it) :
+    GoodList (readListWith item) := by
+  intro rest l
+  have hw : isWhitespace chLParen = false := by decide
+  simp only [readListWith, readWhitespace_idem _ _ _ hw, expect_hit _ _ _ hw]
+  cases item with
+  | none => exact ⟨_, _, rfl, Nat.le_refl _⟩
+  | some it =>
+    obtain ⟨v, r1, h1, hl1⟩ := hitem it rfl ⟨rest, some chLParen⟩
+    simp only [h1]
+    have h2 := expect_len r1 chRParen
+    cases he : expect r1 chRParen with
+    | mk b r2 =>
+      rw [he] at h2
+      simp only at hl1 h2
+      cases b <;> exact ⟨_, _, rfl, by omega⟩
+
+theorem goodValue_readValueWith (L : Rd → Run (Sexp × Rd)) (hL : GoodList L) : GoodValue (readValueWith L) := by
+  intro r
+  have hlen := readWhitespace_len r
+  simp only [readValueWith]
+  rcases readWhitespace_head r with h | ⟨c, rest, h, hc⟩
+  · have : readWhitespace r = ⟨[], (readWhitespace r).last⟩ := by
+      cases hr : readWhitespace r with
+      | mk i l => rw [hr] at h; simp only at h; subst h; rfl
+    rw [this]
+    exact ⟨_, _, _, rfl, by simp, by simp⟩
+  · rw [h] at hlen ⊢
+    simp only [Rd.peek, Rd.readByte, Rd.unreadByte, List.length_cons] at hlen ⊢
+    by_cases h1 : c = chLParen
+    · subst h1
+      obtain ⟨v, r', hv, hl⟩ := hL rest none
+      simp only [if_true, hv]
+      exact ⟨_, _, _, rfl, by omega, fun _ => by omega⟩
+    · simp only [h1, if_false]
+      by_cases h2 : c = chRParen
+      · simp only [h2, if_true]
+        exact ⟨_, _, _, rfl, by simp only [List.length_cons]; omega, by simp⟩
+      · simp only [h2, if_false]
+        by_cases h3 : c = chQuote
+        · subst h3
+          have := readString_lt rest none
+          simp only [if_true]
+          exact ⟨_, _, _, rfl, by simp only [List.length_cons] at this; omega,
+            fun _ => by simp only [List.length_cons] at this; omega⟩
+        · simp only [h3, if_false]
+          by_cases h4 : c = chHash
+          · subst h4
+            have := readBigNum_lt rest none
+            simp only [if_true]
+            exact ⟨_, _, _, rfl, by simp only [List.length_cons] at this; omega,
+              fun _ => by simp only [List.length_cons] at this; omega⟩
+          · simp only [h4, if_false]
+            have hns : isNotSymbolCharacter c = false := by
+              simp only [isNotSymbolCharacter, hc, Bool.false_or, Bool.or_eq_false_iff, beq_eq_false_iff_ne, ne_eq]
+              exact ⟨h1, h2⟩
+            have := readSymbol_lt c rest none hns
+            exact ⟨_, _, _, rfl, by simp only [List.length_cons] at this; omega,
+              fun _ => by simp only [List.length_cons] at this; omega⟩
+
+theorem itemLoop_total (V : Rd → Run ((Sexp × Bool) × Rd)) (hV : GoodValue V) :
+    ∀ (fuel : Nat) (r : Rd), r.inp.length < fuel →
+      ∃ vs r', itemLoop V fuel r = .done (vs, r') ∧ r'.inp.length ≤ r.inp.length := by
+  intro fuel
+  induction fuel with
+  | zero => intro r h; omega
+  | succ f ih =>
+    intro r hf
+    have hw := readWhitespace_len r
+    obtain ⟨v, e, r1, h1, hl1, hlt⟩ := hV (readWhitespace r)
+    simp only [itemLoop, h1]
+    cases e with
+    | true => exact ⟨_, _, rfl, by omega⟩
+    | false =>
+      have := hlt rfl
+      obtain ⟨vs, r2, h2, hl2⟩ := ih r1 (by omega)
+      simp only [h2]
+      exact ⟨_, _, rfl, by omega⟩
+
+theorem tot_readListItemAt : ∀ b, Tot (readListItemAt b) := by
+  intro b
+  induction b with
+  | zero =>
+    intro r
+    obtain ⟨vs, r', h, hl⟩ := itemLoop_total _
+      (goodValue_readValueWith _ (goodList_readListWith none (by simp))) (r.inp.length + 1) r (by omega)
+    simp only [readListItemAt, h]
+    exact ⟨_, _, rfl, hl⟩
+  | succ b ih =>
+    intro r
+    obtain ⟨vs, r', h, hl⟩ := itemLoop_total _
+      (goodValue_readValueWith _ (goodList_readListWith (some (readListItemAt b))
+        (by intro it hit; cases hit; exact ih))) (r.inp.length + 1) r (by omega)
+    simp only [readListItemAt, h]
+    exact ⟨_, _, rfl, hl⟩
+
+theorem goodList_readList : GoodList readList := by
+  show GoodList (readListWith (some (readListItemAt (maxDepth - 1))))
+  exact goodList_readListWith _ (by intro it hit; cases hit; exact tot_readListItemAt _)
+
+/-- **C13, sexp.ReadValue**: comes back on every input, with no more input left than before -/
+theorem goodValue_readValue : GoodValue readValue := goodValue_readValueWith _ goodList_readList
+
+/-- sexp.Read is total -/
+theorem read_total (b : Bytes) : ∃ v r, read b = .done (v, r) := by
+  obtain ⟨v, e, r', h, _, _⟩ := goodValue_readValue ⟨b, none⟩
+  exact ⟨v, r', by simp [read, h]⟩
+
+/-- sexp.ReadListItem and sexp.ReadList are total -/
+theorem readListItem_total (r : Rd) : ∃ v r', readListItem r = .done (v, r') := by
+  obtain ⟨v, r', h, _⟩ := tot_readListItemAt (maxDepth - 1) r
+  exact ⟨v, r', h⟩
+
+/-! #### keys.go -/
+
+theorem tot_readPotentialBigNum : Tot readPotentialBigNum := by
+  intro r
+  obtain ⟨v, e, r', h, hl, _⟩ := goodValue_readValue r
+  simp only [readPotentialBigNum, h, Run.bind_done]
+  cases v <;> exact ⟨_, _, rfl, hl⟩
+
+theorem tot_readPotentialSymbol : Tot readPotentialSymbol := by
+  intro r
+  obtain ⟨v, e, r', h, hl, _⟩ := goodValue_readValue r
+  simp only [readPotentialSymbol, h, Run.bind_done]
+  cases v <;> exact ⟨_, _, rfl, hl⟩
+
+theorem tot_readPotentialStringOrSymbol : Tot readPotentialStringOrSymbol := by
+  intro r
+  obtain ⟨v, e, r', h, hl, _⟩ := goodValue_readValue r
+  simp only [readPotentialStringOrSymbol, h, Run.bind_done]
+  cases v <;> exact ⟨_, _, rfl, hl⟩
+
+theorem tot_readSymbolAndExpect (s : Bytes) : Tot (fun r => readSymbolAndExpect r s) := by
+  intro r
+  obtain ⟨a, r', h, hl⟩ := tot_readPotentialSymbol r
+  obtain ⟨res, ok⟩ := a
+  simp only [readSymbolAndExpect, h, Run.bind_done]
+  exact ⟨_, _, rfl, hl⟩
+
+/-- readParameter comes back; when it reports a parameter it has consumed its "(" -/
+theorem readParameter_total (r : Rd) :
+    ∃ pr r', readParameter r = .done (pr, r') ∧ r'.inp.length ≤ r.inp.length ∧
+      (pr.atEnd = false → r'.inp.length < r.inp.length) := by
+  have h0 := expect_len r chLParen
+  have h0' := expect_lt r chLParen
+  simp only [readParameter]
+  cases he : expect r chLParen with
+  | mk b r1 =>
+    rw [he] at h0 h0'
+    simp only at h0 h0'
+    cases b with
+    | false => exact ⟨_, _, rfl, h0, by simp [ParamRes.stop]⟩
+    | true =>
+      have hlt := h0' rfl
+      obtain ⟨⟨tag, ok1⟩, r2, h2, hl2⟩ := tot_readPotentialSymbol r1
+      obtain ⟨⟨value, ok2⟩, r3, h3, hl3⟩ := tot_readPotentialBigNum r2
+      simp only [h2, h3, Run.bind_done]
+      have h4 := expect_len r3 chRParen
+      cases he4 : expect r3 chRParen with
+      | mk b4 r4 =>
+        rw [he4] at h4
+        simp only at h4
+        cases b4 with
+        | false => exact ⟨_, _, rfl, by omega, fun _ => by omega⟩
+        | true => exact ⟨_, _, rfl, by omega, fun _ => by omega⟩
+
+theorem readDSAParams_total :
+    ∀ (fuel : Nat) (k : DsaPriv) (r : Rd), r.inp.length < fuel →
+      ∃ o r', readDSAParams fuel k r = .done (o, r') ∧ r'.inp.length ≤ r.inp.length := by
+  intro fuel
+  induction fuel with
+  | zero => intro k r h; omega
+  | succ f ih =>
+    intro k r hf
+    obtain ⟨pr, r1, h1, hl1, hlt⟩ := readParameter_total r
+    simp only [readDSAParams, h1, Run.bind_done]
+    cases hok : pr.ok with
+    | false => exact ⟨_, _, rfl, hl1⟩
+    | true =>
+      cases hend : pr.atEnd with
+      | true => exact ⟨_, _, rfl, hl1⟩
+      | false =>
+        have := hlt hend
+        simp only [Bool.not_true, Bool.false_eq_true, if_false]
+        cases assignParameter k pr.tag pr.value with
+        | none => exact ⟨_, _, rfl, hl1⟩
+        | some k' =>
+          obtain ⟨o, r2, h2, hl2⟩ := ih k' r1 (by omega)
+          exact ⟨o, r2, h2, by omega⟩
+
+theorem tot_readDSAPrivateKey : Tot readDSAPrivateKey := by
+  intro r
+  have h0 := expect_len r chLParen
+  simp only [readDSAPrivateKey]
+  cases he : expect r chLParen with
+  | mk b r1 =>
+    rw [he] at h0
+    simp only at h0 ⊢
+    obtain ⟨ok1, r2, h2, hl2⟩ := tot_readSymbolAndExpect (strBytes "dsa") r1
+    simp only at h2
+    obtain ⟨o, r3, h3, hl3⟩ := readDSAParams_total (r2.inp.length + 1) {} r2 (by omega)
+    simp only [h2, h3, Run.bind_done]
+    cases o with
+    | none => exact ⟨_, _, rfl, by omega⟩
+    | some k =>
+      have h4 := expect_len r3 chRParen
+      cases he4 : expect r3 chRParen with
+      | mk b4 r4 =>
+        rw [he4] at h4
+        simp only at h4 ⊢
+        exact ⟨_, _, rfl, by omega⟩
+
+theorem tot_readPrivateKey : Tot readPrivateKey := by
+  intro r
+  have h0 := expect_len r chLParen
+  simp only [readPrivateKey]
+  cases he : expect r chLParen with
+  | mk b r1 =>
+    rw [he] at h0
+    simp only at h0 ⊢
+    obtain ⟨ok1, r2, h2, hl2⟩ := tot_readSymbolAndExpect (strBytes "private-key") r1
+    simp only at h2
+    obtain ⟨⟨res, ok2⟩, r3, h3, hl3⟩ := tot_readDSAPrivateKey r2
+    simp only [h2, h3, Run.bind_done]
+    have h4 := expect_len r3 chRParen
+    cases he4 : expect r3 chRParen with
+    | mk b4 r4 =>
+      rw [he4] at h4
+      simp only at h4 ⊢
+      exact ⟨_, _, rfl, by omega⟩
+
+theorem tot_readAccountName : Tot readAccountName := by
+  intro r
+  have h0 := expect_len r chLParen
+  simp only [readAccountName]
+  cases he : expect r chLParen with
+  | mk b r1 =>
+    rw [he] at h0
+    simp only at h0 ⊢
+    obtain ⟨ok1, r2, h2, hl2⟩ := tot_readSymbolAndExpect (strBytes "name") r1
+    simp only at h2
+    obtain ⟨⟨nm, ok2⟩, r3, h3, hl3⟩ := tot_readPotentialStringOrSymbol r2
+    simp only [h2, h3, Run.bind_done]
+    have h4 := expect_len r3 chRParen
+    cases he4 : expect r3 chRParen with
+    | mk b4 r4 =>
+      rw [he4] at h4
+      simp only at h4 ⊢
+      exact ⟨_, _, rfl, by omega⟩
+
+theorem tot_readAccountProtocol : Tot readAccountProtocol := by
+  intro r
+  have h0 := expect_len r chLParen
+  simp only [readAccountProtocol]
+  cases he : expect r chLParen with
+  | mk b r1 =>
+    rw [he] at h0
+    simp only at h0 ⊢
+    obtain ⟨ok1, r2, h2, hl2⟩ := tot_readSymbolAndExpect (strBytes "protocol") r1
+    simp only at h2
+    obtain ⟨⟨nm, ok2⟩, r3, h3, hl3⟩ := tot_readPotentialSymbol r2
+    simp only [h2, h3, Run.bind_done]
+    have h4 := expect_len r3 chRParen
+    cases he4 : expect r3 chRParen with
+    | mk b4 r4 =>
+      rw [he4] at h4
+      simp only at h4 ⊢
+      exact ⟨_, _, rfl, by omega⟩
+
+/-- readAccount comes back; when it reports an account it has consumed its "(" -/
+theorem readAccount_total (r : Rd) :
+    ∃ a ok atEnd r', readAccount r = .done ((a, ok, atEnd), r') ∧ r'.inp.length ≤ r.inp.length ∧
+      (atEnd = false → r'.inp.length < r.inp.length) := by
+  have h0 := expect_len r chLParen
+  have h0' := expect_lt r chLParen
+  simp only [readAccount]
+  cases he : expect r chLParen with
+  | mk b r1 =>
+    rw [he] at h0 h0'
+    simp only at h0 h0'
+    cases b with
+    | false => exact ⟨_, _, _, _, rfl, h0, by simp⟩
+    | true =>
+      have hlt := h0' rfl
+      obtain ⟨ok1, r2, h2, hl2⟩ := tot_readSymbolAndExpect (strBytes "account") r1
+      simp only at h2
+      obtain ⟨⟨name, ok2⟩, r3, h3, hl3⟩ := tot_readAccountName r2
+      obtain ⟨⟨proto, ok3⟩, r4, h4, hl4⟩ := tot_readAccountProtocol r3
+      obtain ⟨⟨key, ok4⟩, r5, h5, hl5⟩ := tot_readPrivateKey r4
+      simp only [h2, h3, h4, h5, Run.bind_done]
+      have h6 := expect_len r5 chRParen
+      cases he6 : expect r5 chRParen with
+      | mk b6 r6 =>
+        rw [he6] at h6
+        simp only at h6 ⊢
+        exact ⟨_, _, _, _, rfl, by omega, fun _ => by omega⟩
+
+theorem readAccountsLoop_total :
+    ∀ (fuel : Nat) (as : List Account) (ok : Bool) (r : Rd), r.inp.length < fuel →
+      ∃ res r', readAccountsLoop fuel as ok r = .done (res, r') ∧ r'.inp.length ≤ r.inp.length := by
+  intro fuel
+  induction fuel with
+  | zero => intro as ok r h; omega
+  | succ f ih =>
+    intro as ok r hf
+    obtain ⟨a, ok', atEnd, r1, h1, hl1, hlt⟩ := readAccount_total r
+    simp only [readAccountsLoop, h1, Run.bind_done]
+    cases atEnd with
+    | true => exact ⟨_, _, rfl, hl1⟩
+    | false =>
+      have := hlt rfl
+      simp only [Bool.false_eq_true, if_false]
+      cases a with
+      | none =>
+        obtain ⟨res, r2, h2, hl2⟩ := ih as (ok && ok') r1 (by omega)
+        exact ⟨res, r2, h2, by omega⟩
+      | some a =>
+        obtain ⟨res, r2, h2, hl2⟩ := ih (as ++ [a]) (ok && ok') r1 (by omega)
+        exact ⟨res, r2, h2, by omega⟩
+
+/-- **C13, ImportKeys**: the model of ImportKeys comes back (with accounts or with an error) on
+    every byte string: no loop of the reader can run for ever -/
+theorem importKeys_total (b : Bytes) : ∃ res, importKeys b = .done res := by
+  simp only [importKeys, readAccounts]
+  cases he : expect ⟨b, none⟩ chLParen with
+  | mk b0 r1 =>
+    simp only
+    obtain ⟨ok1, r2, h2, hl2⟩ := tot_readSymbolAndExpect (strBytes "privkeys") r1
+    simp only at h2
+    obtain ⟨⟨as, ok2⟩, r3, h3, hl3⟩ := readAccountsLoop_total (r2.inp.length + 1) [] true r2 (by omega)
+    simp only [h2, h3, Run.bind_done]
+    cases he4 : expect r3 chRParen with
+    | mk b4 r4 => exact ⟨_, rfl⟩
+
+/-! ### the wire form of a private key (ParsePrivateKey ∘ Serialize) -/
+
+/-- **C17, DSA private key wire form.**  `ParsePrivateKey(key.Serialize() ++ rest)` gives the key and `rest`. -/
+theorem parsePrivateKey_roundtrip (pk : DsaPub) (x : Nat) (rest : Bytes)
+    (h : mpisFit [pk.p, pk.q, pk.g, pk.y, x]) :
+    parsePrivateKey (appendMPI pk.serialize x ++ rest) = (rest, some (pk, x)) := by
+  have e : appendMPI pk.serialize x ++ rest =
+      [0, 0] ++ (appendMPI [] pk.p ++ (appendMPI [] pk.q ++ (appendMPI [] pk.g ++ (appendMPI [] pk.y ++
+        (appendMPI [] x ++ rest))))) := by
+    simp [DsaPub.serialize, appendMPI, appendData]
+  rw [e]
+  have hp := extractMPI_append pk.p (appendMPI [] pk.q ++ (appendMPI [] pk.g ++ (appendMPI [] pk.y ++
+    (appendMPI [] x ++ rest)))) (h pk.p (by simp))
+  have hq := extractMPI_append pk.q (appendMPI [] pk.g ++ (appendMPI [] pk.y ++ (appendMPI [] x ++ rest)))
+    (h pk.q (by simp))
+  have hg := extractMPI_append pk.g (appendMPI [] pk.y ++ (appendMPI [] x ++ rest)) (h pk.g (by simp))
+  have hy := extractMPI_append pk.y (appendMPI [] x ++ rest) (h pk.y (by simp))
+  have hx := extractMPI_append x rest (h x (by simp))
+  have hpub : parsePublicKey ([0, 0] ++ (appendMPI [] pk.p ++ (appendMPI [] pk.q ++ (appendMPI [] pk.g ++
+      (appendMPI [] pk.y ++ (appendMPI [] x ++ rest)))))) = some (pk, appendMPI [] x ++ rest) := by
+    unfold parsePublicKey
+    simp only [List.cons_append, List.nil_append, extractShort, de16]
+    simp only [hp, hq, hg, hy]
+    rfl
+  unfold parsePrivateKey
+  rw [hpub]
+  simp only [List.cons_append, List.nil_append, extractShort, de16, hx]
+  simp
+
+/-- the same for a key read from a key file whose five numbers are present and non-negative -/
+theorem serialize_parsePrivateKey (p q g y x : Nat) (rest : Bytes) (h : mpisFit [p, q, g, y, x]) :
+    ∃ b, (DsaPriv.mk (some p) (some q) (some g) (some y) (some x)).serialize = .ok b ∧
+      parsePrivateKey (b ++ rest) = (rest, some (⟨p, q, g, y⟩, x)) := by
+  refine ⟨appendMPI (DsaPub.serialize ⟨p, q, g, y⟩) x, ?_, parsePrivateKey_roundtrip ⟨p, q, g, y⟩ x rest h⟩
+  simp [DsaPriv.serialize, DsaPriv.pubSerialize]
 
 end Otr
